@@ -176,6 +176,12 @@ def run_harness(name, mod, slot, cap, logdir, extra=()):
            "--target-dir", tdir] + list(extra)
     log = os.path.join(logdir, name + ".log")
     rc, out, to, dt = run_cmd(cmd, HARNESS, cap, log=log)
+    if "Kani unexpectedly panicked" in out and "print_stats" in out:
+        # kani-compiler 0.68 ICEs in its verbose-only statistics printer on some crates:
+        # run again without -v (no symex / solver time break-down for this harness)
+        cmd = [c for c in cmd if c != "-v"]
+        rc, out, to, dt2 = run_cmd(cmd, HARNESS, cap, log=log)
+        dt += dt2
     r = parse_output(out)
     r.update({"name": name, "module": mod, "wall_s": round(dt, 1), "rc": rc, "log": log})
     if to:
